@@ -386,6 +386,12 @@ func (cv1 *HookConfigV1) CheckOnKubernetesEvent(kubeCfg OnKubernetesEventConfigV
 		}
 	}
 
+	if kubeCfg.Namespace != nil && kubeCfg.Namespace.LabelSelector != nil {
+		if _, err := kubeeventsmanager.FormatLabelSelector(kubeCfg.Namespace.LabelSelector); err != nil {
+			allErr = multierror.Append(allErr, fmt.Errorf("namespace.labelSelector is invalid: %w", err))
+		}
+	}
+
 	if kubeCfg.NameSelector != nil && len(kubeCfg.NameSelector.MatchNames) > 0 {
 		if kubeCfg.FieldSelector != nil && len(kubeCfg.FieldSelector.MatchExpressions) > 0 {
 			for _, expr := range kubeCfg.FieldSelector.MatchExpressions {
